@@ -89,7 +89,7 @@ def gen(args):
     for t in core.timed(range(n)):
         X, kind = data(H, rng, big)
         N = X.shape[0]
-        ffs = [None, 0.01, 0.3, 1.0, 1 / 128, 0.9]
+        ffs = [None, 0.01, 0.3, 1.0, 1 / 128, 0.9, 0.0, 0]        # both end points of the admissible range, also as an int
         ff = ffs[int(rng.integers(len(ffs)))]
         r = rng.random()
         if r < 0.3:
